@@ -194,12 +194,35 @@ def run_stack(ctx, broken, ps):
 
 
 def run_loop(ctx, broken, ps):
-    """H3 part: starved secondary stack / tight initializer capacity on a real CoreState"""
-    return {}
+    """H3 part: starved secondary stack / tight initializer capacity on a real CoreState (the
+    real InteractionApplier + StackAllocator + capacity checks in the real action loop)."""
+    from checks import c02
+    exe, log, _ = vlib.build_harness("trackinit", HARNESS["trackinit"])
+    if exe is None:
+        ctx.violation("harness-build-trackinit", "harness/trackinit.cc no longer builds",
+                      {"correspondence": "harness build", "log": log[-2000:]}, found_input=False)
+        return {}
+    n = 250 if ctx.quick() else 3000
+    scripts, modes = [], []
+    for k in range(n):
+        scripts.append(c02.gen_script(ctx.rng, ctx.rng.range(3, 14), mode="stepper",
+                                      starved=(k % 4 != 3)))
+        modes.append("stepper")
+    model_ok = ps["model_ok"] and os.path.exists(vlib.model_exe("C02"))
+    r = c02.run_all(ctx, exe, scripts, modes, model_ok, key_prefix="loop-")
+    if r["diverged"]:
+        broken.append(f"correspondence(loop): model and implementation differ on "
+                      f"{len(r['diverged'])} scripts")
+    failed = r["tags"].get("interact:failed", 0)
+    caperr = r["tags"].get("efs:error-capacity", 0) + r["tags"].get("insert:error-capacity", 0)
+    return {"loop_ops": r["ops"], "loop_distinct": r["distinct"], "loop_diverging": r["diverged"][:2],
+            "loop_failed_interaction_steps": failed, "loop_capacity_errors": caperr,
+            "loop_recoveries": r["tags"].get("recover:reset", 0),
+            "loop_sample": r["resolved"][0][:8]}
 
 
 def run(ctx):
-    ps = common.proof_side(ctx, "C16")
+    ps = common.proof_side(ctx, "C16", extra_targets=["celer_model_c02"])
     broken = list(ps["broken"])
     ctx.assumptions += [
         "model of StackAllocator.hh / InteractionApplier.hh is hand-written (Model/Stack.lean) and "
@@ -232,7 +255,11 @@ def run(ctx):
         "rule": "allocator: random op scripts (new/alloc/write/get/clear/setsize) with capacities "
                 "0,1,2,3,4..200 and request sizes 1, cap, cap+1, up to 2cap+2 and near 2^32, plus "
                 "all request triples for capacities 0..6; a script is non-trivial if at least "
-                "one allocation failed; distinct = distinct scripts",
+                "one allocation failed; distinct = distinct scripts. loop: random Stepper-order "
+                "action scripts on a real CoreState with secondary-stack capacities 0..3*slots+1 "
+                "and initializer capacities 1..1000; each failed interaction is checked in the "
+                "harness to be a no-op on the real track (energy, direction, position, status, "
+                "deposition, secondaries, stack size) and the dumps are diffed with the model",
         "samples": [cov.get("stack_sample", [])],
         "correspondence_broken": broken,
     })
